@@ -51,4 +51,6 @@ def run(ctx):
                 r.note("information only: vector class %s has no illegal-site screen (not required by the property)" % kc.name)
     run_kernels(ctx, ["K7", "K8", "K9", "K10", "K1", "K2", "K3"], "C04")
     from ..rules_misc import k19_match
-    k19_match(ctx, "C04")
+    ctx.guard(k19_match, ctx, "C04")
+    from ..rules_misc import k21_match_overrides
+    ctx.guard(k21_match_overrides, ctx, "C04")
